@@ -21,7 +21,7 @@ STUB_COMPONENTS = ['sources', 'searchers', 'borrower readers (layer 1: answer ta
 RULE = ('layer 1: seeded compile() worlds with 1-3 borrowers of both flavours holding random subsets, failures planted in every stage, noDeps/genTexts/ignoreErrors subsets; '
         'layer 2: directories with every extension variant of the module name read through the real borrowers; '
         'distinct = distinct (status multiset, options, faults, component counts, borrower flavours); non-trivial = a borrower was consulted or a fault fired')
-ASSUMPTIONS = ['file names equal module names in layer 1 (multi-module files: C07, known finding D18)']
+ASSUMPTIONS = ['names whose failure stems from a co-resident module of a multi-module file (known finding D18, see C07) are not judged']
 
 
 def judge(t):
@@ -30,7 +30,19 @@ def judge(t):
     R = t.R
     opts = scn.get('options', {})
 
+    # known finding D18 (C07): a co-resident module's failure is booked under the lookup name although that module
+    # compiled; borrowing is then attempted for a compiled module.  Those names are not judged here.
+    cores = set()
+    for c in t.by('symtab.genCode'):
+        if not c.ok and c.ctx is not None and c.mib != c.ctx:
+            if any(d.ok and d.mib == c.ctx and d.ctx == c.ctx for d in t.by('symtab.genCode')):
+                cores.add(c.ctx)
+
     def V(clause, msg, **facts):
+        if facts.get('module') in cores:
+            t.world.probe('not-judged:D18-coresident')
+            return
+        facts.pop('module', None)
         viol.append({'clause': clause, 'key': '%s|%s' % (clause, facts.get('what', '')), 'facts': facts, 'message': msg})
 
     if t.escaped is not None or not isinstance(R, dict):
@@ -61,15 +73,17 @@ def judge(t):
     gen_fail = set(c.mib for c in t.by('codegen.genCode') if not c.ok)
     failed_before = (fetch_tried - fetch_ok) | gen_fail
     requested = set(scn['requested'])
+    # modules that came in a file fetched under a requested name count as explicitly requested
+    requested |= set(c.mib for c in t.by('symtab.genCode') if c.ok and c.ctx in requested)
     noDeps = bool(opts.get('noDeps'))
     bcalls = t.by('borrower.getData')
     rcalls = t.by('breader.getData')
     # 1. only for modules that could not be found or compiled
     for c in bcalls:
         if c.mib in gen_ok:
-            V('C19.1-only-failed', 'borrower %d asked for %s although code was generated for it' % (c.comp, c.mib), what='asked-for-compiled')
+            V('C19.1-only-failed', 'borrower %d asked for %s although code was generated for it' % (c.comp, c.mib), what='asked-for-compiled', module=c.mib)
         elif c.mib not in failed_before:
-            V('C19.1-only-failed', 'borrower %d asked for %s which did not fail' % (c.comp, c.mib), what='asked-for-unfailed')
+            V('C19.1-only-failed', 'borrower %d asked for %s which did not fail' % (c.comp, c.mib), what='asked-for-unfailed', module=c.mib)
     # 2. flavour, order, stop at first supplier
     for c in rcalls:
         fl = bool(scn['borrowers'][c.comp].get('genTexts'))
@@ -116,7 +130,7 @@ def judge(t):
                 V('C19.3-verbatim', 'borrowed %s has a fresh copy at the destination but is reported %s' % (m, s), what='fresh-status')
             continue
         if s not in ('borrowed', 'unprocessed', 'failed'):
-            V('C19.3-verbatim', 'module %s was supplied by borrower %d but is reported %s' % (m, c.comp, s), what='status', status=s)
+            V('C19.3-verbatim', 'module %s was supplied by borrower %d but is reported %s' % (m, c.comp, s), what='status', status=s, module=m)
         if s == 'failed' and not any(not p.ok for p in puts.get(m, [])):
             V('C19.3-verbatim', 'module %s was supplied by borrower %d but still counts as failed' % (m, c.comp), what='still-failed')
         for p in puts.get(m, []):
@@ -126,9 +140,9 @@ def judge(t):
         if m in gen_text:
             for p in pl:
                 if p.kw.get('data') != gen_text[m]:
-                    V('C19.4-compiled-wins', 'module %s compiled successfully but something else was written' % m, what='replaced')
+                    V('C19.4-compiled-wins', 'module %s compiled successfully but something else was written' % m, what='replaced', module=m)
             if str(R.get(m)) == 'borrowed':
-                V('C19.4-compiled-wins', 'module %s compiled successfully but is reported borrowed' % m, what='status-borrowed')
+                V('C19.4-compiled-wins', 'module %s compiled successfully but is reported borrowed' % m, what='status-borrowed', module=m)
     # borrowed modules no longer count as failures: if nothing else failed, things get written
     F, B, _fresh = c09.failure_sets(t)
     if not scn.get('sources'):
@@ -161,8 +175,9 @@ def generate(rng, tier):
     if rng.random() < 0.25:
         return gen_layer2(rng, tier)
     scn = cs.gen_world(rng, tier, focus='C19')
-    scn['files'] = {}
-    scn.pop('co_only', None)
+    if rng.random() < 0.6:
+        scn['files'] = {}
+        scn.pop('co_only', None)
     if rng.random() < 0.4:
         scn['options']['noDeps'] = True
     return scn
